@@ -335,7 +335,7 @@ def defect(draw, units, ctx):
     kind = draw(st.sampled_from(["swap", "delete", "dup", "insert", "next", "prev", "picnum", "version", "level", "variant",
                                  "alien", "fragshape", "drop_eos", "next_zero_nonpic", "interleave_pic", "restart_frag",
                                  "interleave_pic", "restart_frag", "drop_last_picture", "frag_xy", "frag_xy", "version_plus_one",
-                                 "version_plus_one"]))
+                                 "version_plus_one", "drop_first_fragment", "drop_first_fragment"]))
     n = len(units)
     i = draw(st.integers(0, n - 1))
     j = draw(st.integers(0, n - 1))
@@ -419,6 +419,12 @@ def defect(draw, units, ctx):
                                                  (s0 % 2, s0 // 2), (0, s0), (s0 % 2 + 2, s0 // 2), (65535, 0), (0, 0), (1, 1)])))
             if x["xy"][0] < 0 or x["xy"][1] < 0:
                 x["xy"] = [s0, 0]
+    elif kind == "drop_first_fragment":
+        # remove the zero-slice first fragment of a fragmented picture, keeping its slice-carrying fragments
+        # (after a whole picture they then follow a picture number that is already "known")
+        cands = [k for k, x in enumerate(units) if x["kind"] == "F0"]
+        if cands:
+            del units[cands[draw(st.integers(0, len(cands) - 1))]]
     elif kind == "drop_last_picture":
         # remove the last whole picture (numbering of the others stays consistent): an odd number of fields remains
         starts = [k for k, x in enumerate(units) if x["kind"] in ("PIC", "F0")]
@@ -466,7 +472,7 @@ def histories(draw):
                     break
                 seq, name = draw(defect(seq, ctx))
                 defects.append(name)
-                structural = structural or name in ("swap", "delete", "dup", "insert", "interleave_pic", "restart_frag")
+                structural = structural or name in ("swap", "delete", "dup", "insert", "interleave_pic", "restart_frag", "drop_first_fragment")
             seq = resolve_markers(seq)
             if structural and draw(st.integers(0, 2)) != 0:
                 # keep the numbering consistent so that the verdict hinges on the structural rule
